@@ -353,6 +353,37 @@ def evalOut (pragma : Option String) (out : Node) : Node :=
   let roles := rolesOfModule out ++ capturedRoles out
   post (evalRule roles pragma) (post (stripRule roles) out)
 
+/-! ### C12: what `optimize` may add -/
+
+/-- removes the trailing reserved `_` entry, if there is one -/
+def dropHintEntries (props : List Node) : List Node :=
+  match props.reverse with
+  | last :: restRev => if isHintEntry last then restRev.reverse else props
+  | [] => props
+
+/-- the children argument with the reserved `_` entry of slot objects removed -/
+def eraseSlotHint (kids : Node) : Node :=
+  match kids with
+  | .mk .object as [.mk .list las props] => .mk .object as [.mk .list las (dropHintEntries props)]
+  | .mk .cond as [t, c, .mk .object oas [.mk .list las props]] =>
+    .mk .cond as [t, c, .mk .object oas [.mk .list las (dropHintEntries props)]]
+  | k => k
+
+/-- C12: erase what `optimize` is allowed to add: arguments 4–5 of vnode calls and the `_` entry of slot objects -/
+def eraseHintsRule (roles : Roles) (pragma : Option String) (n : Node) : Node :=
+  match n with
+  | .mk .call ("syn" :: as) [callee, .mk .list las args, ta] =>
+    if roleOf roles pragma callee == some "createVNode" then
+      match args with
+      | a :: b :: .mk .arg aas [kids] :: _ => .mk .call ("syn" :: as) [callee, .mk .list las [a, b, .mk .arg aas [eraseSlotHint kids]], ta]
+      | _ => n
+    else n
+  | n => n
+
+def eraseHints (pragma : Option String) (out : Node) : Node :=
+  post (eraseHintsRule (rolesOfModule out) pragma) out
+
+
 /-! ### DENOTE: the JSX source, read off the property statements -/
 
 structure DCtx where
